@@ -1110,7 +1110,10 @@ def facts_of(ctx, c: Container) -> Facts:
     keyread_fs = {e.f for e in runtime if e.kind == "keyread"}
     # a cache's miss branch (or its lookup) may live in a private helper of the function that does the other half
     keyread_fs = keyread_fs | {h for f in keyread_fs for h in md.private_unit(f)}
-    pure = bool(muts) and all(e.kind == "store" and e.f in keyread_fs for e in muts) and c.kind != "sys"
+    # a content-keyed cache: entries are only ever added next to a keyed read - or removed (`del c[k]`, `c.pop(k[, d])`: an
+    # invalidation cannot produce a stale hit)
+    removal = lambda e: e.kind == "del" or (e.kind == "mutcall" and e.detail == ".pop()" and e.key is not None)
+    pure = any(e.kind == "store" for e in muts) and all((e.kind == "store" and e.f in keyread_fs) or removal(e) for e in muts) and c.kind != "sys"
     if esc and c.kind != "namespace" and (not muts or pure):
         # an unrecognised use only matters where it could turn a constant table / pure cache into mutable state
         e = esc[0]
